@@ -74,6 +74,19 @@ Theorem C19_username : forall s,
 Proof. exact valid_username_iff. Qed.
 Print Assumptions C19_username.
 
+(* every way a username enters a join (password credentials, the username
+   carried by a stateful token or the `sub` of a JWT, a token without
+   username plus a client-chosen name): GetPermission returns a username only
+   if it obeys the rule, and it is the token's or the client's *)
+Theorem C19_join_username :
+  forall tok_present parse_ok needs check cuser user_exists password_ok u,
+  get_permission_username tok_present parse_ok needs check cuser user_exists password_ok = Some u ->
+  valid_username u = true /\
+  (u = [] \/ valid_group_name u = true) /\
+  (check = Some u \/ cuser = Some u).
+Proof. exact get_permission_username_valid. Qed.
+Print Assumptions C19_join_username.
+
 (* ---- URL-to-group parsing ---------------------------------------------- *)
 
 (* parseGroupName returns "" or a name the group layer accepts *)
@@ -219,7 +232,11 @@ Example C19_example :
   rec_path (bytes "rec") (bytes "a/b") (bytes "2026-01-02T03:04:05.000") (bytes "../x\y") 7 (bytes "webm")
     = bytes "rec/a/b/2026-01-02T03:04:05.000-..-slash-x-backslash-y-07.webm" /\
   delete_target (bytes "a/b") (bytes "..") = Some (bytes "a/b") /\
-  delete_target (bytes "a/b") (bytes "../x") = None.
+  delete_target (bytes "a/b") (bytes "../x") = None /\
+  get_permission_username true true false (Some (bytes "../../escape")) None false false = None /\
+  get_permission_username true true false (Some (bytes "alice")) (Some (bytes "bob")) false false
+    = Some (bytes "alice") /\
+  get_permission_username true true true (Some []) (Some (bytes "bob")) false false = Some (bytes "bob").
 Proof.
   cbv zeta. split; [discriminate|]. vm_compute. repeat split; reflexivity.
 Qed.
